@@ -94,12 +94,167 @@ fn debug_case(members: &[usize]) {
 
 #[cfg_attr(kani, kani::proof, kani::unwind(50))]
 #[cfg_attr(not(kani), test)]
-fn alg_effects_debug() {
+fn alg_effects_dbg_samples() {
     debug_case(&[]);
     debug_case(&[0]);
     debug_case(&[11]);
     debug_case(&[3, 8]);
     debug_case(&[1, 2, 10]);
+}
+
+/// every member's name alone (first half / second half of the table)
+#[cfg_attr(kani, kani::proof, kani::unwind(50))]
+#[cfg_attr(not(kani), test)]
+fn alg_effects_dbg_singles_lo() {
+    debug_case(&[1]);
+    debug_case(&[2]);
+    debug_case(&[3]);
+    debug_case(&[4]);
+    debug_case(&[5]);
+}
+
+#[cfg_attr(kani, kani::proof, kani::unwind(50))]
+#[cfg_attr(not(kani), test)]
+fn alg_effects_dbg_singles_hi() {
+    debug_case(&[6]);
+    debug_case(&[7]);
+    debug_case(&[8]);
+    debug_case(&[9]);
+    debug_case(&[10]);
+}
+
+/// Streaming matcher: a `fmt::Write` sink that compares the bytes it receives, as they arrive and
+/// however the formatter splits them into `write_str` calls, with the text the statement fixes for
+/// the set: "Effects(" + member names in declaration order joined by " | " + ")".  Nothing is stored
+/// (storing at a symbolic position is what CBMC does not finish).
+struct DebugMatcher {
+    /// next[i]: smallest member index > i, or 12; first: smallest member index, or 12
+    next: [usize; 12],
+    first: usize,
+    /// token being matched: 0 head, 1 name of member `nb`, 2 separator, 3 tail, 4 complete
+    tok: u8,
+    nb: usize,
+    off: usize,
+    ok: bool,
+}
+
+const NAME_LEN: [usize; 12] = [4, 6, 6, 9, 16, 15, 16, 16, 5, 6, 6, 13];
+const NAME_BYTES: [[u8; 16]; 12] = [
+    *b"BOLD............", *b"DIMMED..........", *b"ITALIC..........", *b"UNDERLINE.......", *b"DOUBLE_UNDERLINE",
+    *b"CURLY_UNDERLINE.", *b"DOTTED_UNDERLINE", *b"DASHED_UNDERLINE", *b"BLINK...........", *b"INVERT..........",
+    *b"HIDDEN..........", *b"STRIKETHROUGH...",
+];
+const HEAD: [u8; 8] = *b"Effects(";
+const SEP: [u8; 3] = *b" | ";
+
+impl DebugMatcher {
+    fn new(bits: u16) -> Self {
+        let mut next = [12usize; 12];
+        let mut first = 12usize;
+        // from the last index down: `seen` is the smallest member index above i
+        let mut seen = 12usize;
+        let mut k = 0;
+        while k < 12 {
+            let i = 11 - k;
+            next[i] = seen;
+            if bits & (1 << i) != 0 {
+                seen = i;
+            }
+            k += 1;
+        }
+        first = seen;
+        DebugMatcher { next, first, tok: 0, nb: 0, off: 0, ok: true }
+    }
+
+    fn feed(&mut self, b: u8) {
+        let (want, len) = if self.tok == 0 {
+            (HEAD[self.off & 7], 8)
+        } else if self.tok == 1 {
+            (NAME_BYTES[self.nb][self.off & 15], NAME_LEN[self.nb])
+        } else if self.tok == 2 {
+            (SEP[if self.off < 3 { self.off } else { 0 }], 3)
+        } else if self.tok == 3 {
+            (b')', 1)
+        } else {
+            self.ok = false;
+            return;
+        };
+        if b != want {
+            self.ok = false;
+        }
+        self.off += 1;
+        if self.off == len {
+            self.off = 0;
+            if self.tok == 0 {
+                if self.first < 12 { self.tok = 1; self.nb = self.first; } else { self.tok = 3; }
+            } else if self.tok == 1 {
+                if self.next[self.nb] < 12 { self.tok = 2; } else { self.tok = 3; }
+            } else if self.tok == 2 {
+                self.tok = 1;
+                self.nb = self.next[self.nb];
+            } else {
+                self.tok = 4;
+            }
+        }
+    }
+}
+
+impl core::fmt::Write for DebugMatcher {
+    fn write_str(&mut self, s: &str) -> core::fmt::Result {
+        let bytes = s.as_bytes();
+        // no piece the formatter hands over is longer than the longest token (16)
+        if bytes.len() > 16 {
+            self.ok = false;
+            return Ok(());
+        }
+        let mut j = 0;
+        while j < 16 {
+            if j < bytes.len() {
+                self.feed(bytes[j]);
+            }
+            j += 1;
+        }
+        Ok(())
+    }
+}
+
+/// the matcher's byte table is the table of names (concrete)
+#[cfg_attr(kani, kani::proof, kani::unwind(18))]
+#[cfg_attr(not(kani), test)]
+fn alg_names_table() {
+    let mut i = 0;
+    while i < 12 {
+        let n = NAMES[i].as_bytes();
+        assert!(n.len() == NAME_LEN[i], "matcher table: name lengths");
+        let mut j = 0;
+        while j < 16 {
+            if j < n.len() {
+                assert!(n[j] == NAME_BYTES[i][j], "matcher table: name bytes");
+            }
+            j += 1;
+        }
+        i += 1;
+    }
+}
+
+/// Debug for every one of the 4096 sets (Formatter constructed directly, see render.rs): the text is
+/// "Effects(" + member names joined by " | " + ")".  NOT REGISTERED: CBMC does not finish (15 min,
+/// > 6 GB) because `Debug for Effects` uses `write!`, i.e. `fmt::Arguments` function pointers, whose
+/// candidate targets include every formatting function of the crate.  Kept for a stronger back end.
+#[cfg_attr(kani, kani::proof, kani::unwind(18))]
+#[cfg_attr(not(kani), test)]
+fn alg_effects_debug_all() {
+    let (e, bits) = any_effects();
+    let mut out = DebugMatcher::new(bits);
+    let r = {
+        let mut f = core::fmt::Formatter::new(&mut out, core::fmt::FormattingOptions::new());
+        core::fmt::Debug::fmt(&e, &mut f)
+    };
+    assert!(r.is_ok(), "Debug for Effects does not fail");
+    assert!(out.ok, "Debug for Effects is `Effects(` + the member names in declaration order joined by ` | ` + `)`");
+    assert!(out.tok == 4, "Debug for Effects is complete: it ends with `)` after the last member");
+    vk::vk_cover!(bits == 4095, "all members");
+    vk::vk_cover!(bits == 0, "no member");
 }
 
 /// builders change only their own field; getters return what was set
